@@ -739,6 +739,11 @@ func (node *Node) AsSliceI32(ctx *Context, vp unsafe.Pointer) error {
 	var gerr error
 	for i := 0; i < size; i++ {
 		val := NewNode(next)
+		/* null leaves the element as it is, like encoding/json */
+		if val.IsNull() {
+			next = PtrOffset(val.cptr, 1)
+			continue
+		}
 		ret, ok := val.AsI64(ctx)
 		if !ok || ret > math.MaxInt32 || ret < math.MinInt32 {
 			if gerr == nil {
@@ -768,6 +773,11 @@ func (node *Node) AsSliceI64(ctx *Context, vp unsafe.Pointer) error {
 	var gerr error
 	for i := 0; i < size; i++ {
 		val := NewNode(next)
+		/* null leaves the element as it is, like encoding/json */
+		if val.IsNull() {
+			next = PtrOffset(val.cptr, 1)
+			continue
+		}
 
 		ret, ok := val.AsI64(ctx)
 		if !ok {
@@ -798,6 +808,11 @@ func (node *Node) AsSliceU32(ctx *Context, vp unsafe.Pointer) error {
 	var gerr error
 	for i := 0; i < size; i++ {
 		val := NewNode(next)
+		/* null leaves the element as it is, like encoding/json */
+		if val.IsNull() {
+			next = PtrOffset(val.cptr, 1)
+			continue
+		}
 		ret, ok := val.AsU64(ctx)
 		if !ok || ret > math.MaxUint32 {
 			if gerr == nil {
@@ -827,6 +842,11 @@ func (node *Node) AsSliceU64(ctx *Context, vp unsafe.Pointer) error {
 	var gerr error
 	for i := 0; i < size; i++ {
 		val := NewNode(next)
+		/* null leaves the element as it is, like encoding/json */
+		if val.IsNull() {
+			next = PtrOffset(val.cptr, 1)
+			continue
+		}
 		ret, ok := val.AsU64(ctx)
 		if !ok {
 			if gerr == nil {
@@ -856,6 +876,11 @@ func (node *Node) AsSliceString(ctx *Context, vp unsafe.Pointer) error {
 	var gerr error
 	for i := 0; i < size; i++ {
 		val := NewNode(next)
+		/* null leaves the element as it is, like encoding/json */
+		if val.IsNull() {
+			next = PtrOffset(val.cptr, 1)
+			continue
+		}
 		ret, ok := val.AsStr(ctx)
 		if !ok {
 			if gerr == nil {
